@@ -126,6 +126,36 @@ func (c *checker) runHistory(h []int, all bool) (key string, what string, pruned
 			}
 		}
 	}
+	// Scripted prefix (GenesisOptions.Prefix): part of the initial state, not of the history.
+	for _, nm := range c.w.opts.Prefix {
+		var pl *letter
+		for _, t := range c.w.stakingTxs() {
+			if t.Name == nm {
+				pl = &letter{Name: nm, Txs: []txT{t}}
+			}
+		}
+		if nm == "empty-block" {
+			pl = &letter{Name: nm}
+		}
+		if pl == nil {
+			return "", "harness: unknown prefix letter " + nm, false
+		}
+		out, err := b.exec(pl)
+		if err != nil {
+			return "", "harness: " + err.Error(), false
+		}
+		if out.results[0].Panic != "" {
+			return "", "harness: prefix block failed: " + out.results[0].Panic, false
+		}
+		if len(out.results[0].TxResults) > 0 && out.results[0].TxResults[0].Code != 0 {
+			return "", fmt.Sprintf("harness: prefix transaction %s failed with code %d", nm, out.results[0].TxResults[0].Code), false
+		}
+		if c.prop == "C05" {
+			if s, w := supplyInvariants(b.ref()); w == "" {
+				prevSupply = s
+			}
+		}
+	}
 	for i, li := range h {
 		l := &c.alpha[li]
 		out, err := b.exec(l)
@@ -347,6 +377,12 @@ func runHistories(r *ev.Run) {
 		// all entities tied and the validator limit cutting into the tie: any order-dependent
 		// step of the election makes replicas disagree
 		variants = append(variants, chain.GenesisOptions{Escrow: []uint64{1500, 2000, 2500}, MaxValidators: 2, EpochInterval: 1, NodeExpiration: 12})
+	}
+	if prop == "C05" || prop == "C10" {
+		// governance: a proposal raising the minimum proposal deposit has been submitted and carries
+		// enough yes votes to pass when it closes; a second proposal, submitted an epoch later under the
+		// old deposit and also carrying enough yes votes, closes after the first one was executed
+		variants = append(variants, chain.GenesisOptions{EpochInterval: 2, NodeExpiration: 14, Prefix: []string{"gov-submit-mindeposit(e1,500)", "gov-vote(e2,#1,yes)", "gov-vote(e1,#1,yes)", "gov-submit-upgrade(e0)", "gov-vote(e2,#2,yes)", "gov-vote(e1,#2,yes)"}})
 	}
 	if prop == "C05" || prop == "C10" || (prop == "C01" && r.Thorough()) {
 		// a vault at genesis: funds held by a module account with a withdraw hook, actions that execute inner messages
